@@ -3,7 +3,7 @@
 The bytes produced by base64 / struct / float32 conversion / float.__format__ are C code and are
 not encoded; what is pyMOTO logic is executed for real and decided:
 
-vti      DomainDefinition.write_to_vti on *stand-ins*: the grid sizes nelx, nely, nelz <= 12 and the
+vti      DomainDefinition.write_to_vti on *stand-ins*: the grid sizes nelx, nely, nelz <= vti_max (BOUNDS) and the
          number of components c <= 6 are symbolic integers (symx.zint.Z, unsigned bit-vectors
          because of `%` and `//` by nel / nnodes), the vectors are objects with symbolic
          size / shape whose payload is an opaque token, `open` is redirected to an in-memory
@@ -38,22 +38,23 @@ from .refs_chk import Chk, LAST, _obs
 
 PROPERTY = "C20"
 BOUNDS = {
-    "quick": dict(vti_sizes="nelx, nely, nelz symbolic in 1..12 (20-bit bit-vectors)", vti_components="c symbolic in 1..6",
+    "quick": dict(vti_sizes="nelx, nely, nelz symbolic in 1..vti_max (16-bit bit-vectors)", vti_max_2d=12, vti_max_3d=6,
+                  vti_components="c symbolic in 1..6",
                   vti_dims=[2, 3], vti_block_rows=[2, 3], vti_layouts=["flat", "rows (r, c*n)", "cols (c*n, r)"],
                   vti_scale_origin_spacing="symbolic reals", writer_iterations="0..3 concrete + symbolic counter 0..10^6",
                   writer_saveto=["dat.vti", "res.v1/dat.vti", "dat"], scalar_calls=3,
                   scalar_files=["log.txt", "log.csv", "log.dat", "run.csv.d/log.txt"],
                   scalar_shapes=["scalar", "(1,)", "(3,)", "(2,2)", "(2,3)"]),
 }
-BOUNDS["thorough"] = dict(BOUNDS["quick"], vti_block_rows=[2, 3, 4])
+BOUNDS["thorough"] = dict(BOUNDS["quick"], vti_block_rows=[2, 3, 4], vti_max_3d=10)
 OUTSIDE = ["bytes produced by base64.b64encode, struct.pack, ndarray.astype(float32), float.__format__ (C code, trusted)",
            "whether a VTK reader accepts the length header: pyMOTO writes the length of the *encoded* block, readers "
            "following the VTK file-format description expect the number of raw bytes (both are accepted here)",
-           "grid sizes > 12 per direction, more than 6 components, block vectors with more than 4 rows",
+           "grid sizes beyond vti_max per direction, more than 6 components, block vectors with more rows than listed",
            "nel and nnodes are set from their definition nelx*nely*max(nelz,1), (nelx+1)(nely+1)(nelz+1) for the symbolic "
            "run (DomainDefinition.__init__ needs concrete sizes; C13 checks these attributes on enumerated grids)",
            "figure modules (PlotDomain, PlotGraph, PlotIter)", "DataArray names of block vectors beyond 'distinct and prefixed by the key'"]
-ASSUMPTIONS = ["integer arithmetic of write_to_vti modelled by 20-bit unsigned bit-vectors; the no-wrap-around side conditions of "
+ASSUMPTIONS = ["integer arithmetic of write_to_vti modelled by 16-bit unsigned bit-vectors; the no-wrap-around side conditions of "
                "every + and * are discharged as obligations of kind 'bv-no-wraparound'",
                "quantifier of the property: only domains with nnodes % nel != 0 (and nel % nnodes != 0, which always holds)",
                "a vector is *meant* as cell data when it is constructed with size c*nel and as point data when constructed "
@@ -62,8 +63,7 @@ ASSUMPTIONS = ["integer arithmetic of write_to_vti modelled by 20-bit unsigned b
                "concrete twin runs the real np.nditer"]
 ITEM_TIMEOUT = {"quick": 110, "thorough": 600}
 REPLAYS_PER_GROUP = 2
-WIDTH = 20
-HI = 12
+WIDTH = 16
 CMAX = 6
 
 
@@ -72,7 +72,8 @@ def items(tier):
     out = []
 
     def vti(name, dim, vectors):
-        out.append(dict(kind="vti", id="vti-%dd-%s" % (dim, name), dim=dim, vectors=vectors, hi=HI, width=WIDTH, cmax=CMAX))
+        out.append(dict(kind="vti", id="vti-%dd-%s" % (dim, name), dim=dim, vectors=vectors, hi=b["vti_max_%dd" % dim],
+                        width=WIDTH, cmax=CMAX))
     for dim in b["vti_dims"]:
         vti("cell-flat", dim, [dict(key="x", kind="cell", layout="flat", rows=0)])
         vti("point-flat", dim, [dict(key="u", kind="point", layout="flat", rows=0)])
@@ -393,6 +394,7 @@ def sc_vti(V, P, cfg):
                 fn = os.path.join(tmp, "out.vti")
                 dom.write_to_vti(vectors, filename=fn, scale=scale, origin=tuple(origin))
                 data = open(fn, "rb").read() if os.path.exists(fn) else None
+                K.holds("exactly-one-file-opened", os.listdir(tmp) == ["out.vti"], "vti-structure", info=os.listdir(tmp))
     finally:
         if tmp is not None:
             shutil.rmtree(tmp, ignore_errors=True)
@@ -478,6 +480,13 @@ def sc_vti(V, P, cfg):
                 else:
                     exp = src
                 got = np.frombuffer(raw, dtype=np.float32).tolist() if len(raw) % 4 == 0 else None
+                padded = len(raw) != 4 * len(src)           # the block is not the input row itself
+                if pad_case:
+                    K.holds("padded-iff-2-components:" + nm, (c == 2) == padded, "padding", info=dict(values=len(raw) // 4, input=len(src)))
+                else:
+                    K.holds("not-padded:" + nm, not padded, "padding", info=dict(values=len(raw) // 4, input=len(src)))
+                if padded:
+                    K.eq("padded-size:" + nm, len(raw) // 4, 3 * nnodes, "padding")
                 K.holds("payload:" + nm, got == exp, "payload", info=dict(got=(got or [])[:12], expected=exp[:12]))
     # the section order and the absence of foreign arrays
     K.holds("no-foreign-arrays", all(any(da.get("Name") == sp["key"] or (da.get("Name") or "").startswith(sp["key"] + "(")
@@ -598,8 +607,6 @@ def sc_writer(V, P, cfg):
                     K.holds("e2e-decodes[%s]" % tag, bool(ok), "writer-e2e")
                 except Exception as e:
                     K.holds("e2e-decodes[%s]" % tag, False, "writer-e2e", info="%s: %s" % (type(e).__name__, e))
-                    if os.environ.get("C20_DEBUG"):
-                        raise
     finally:
         shutil.rmtree(tmp, ignore_errors=True)
     return obs
@@ -774,7 +781,7 @@ SCEN = {"vti": sc_vti, "writer": sc_writer, "scalar": sc_scalar}
 
 
 def run_item(cfg, tier):
-    return symbolic_run(SCEN[cfg["kind"]], cfg, tier, max_paths=200, feas_timeout_ms=20000,
+    return symbolic_run(SCEN[cfg["kind"]], cfg, tier, max_paths=200, feas_timeout_ms=20000 if tier == "quick" else 90000,
                         obl_timeout_ms=30000 if tier == "quick" else 120000)
 
 
@@ -791,6 +798,9 @@ def replay(cfg, label, env, case):
         return dict(reproduced=(want is None or type(e).__name__ == want),
                     detail=dict(raised="%s: %s" % (type(e).__name__, str(e)[:300]), clause=label, inputs=inputs()))
     fails = LAST["chk"].fails if "chk" in LAST else {}
+    missing = [k for k in V.requested if k not in env]
+    if missing:          # no witness from the solver (e.g. a path kept after an `unknown` feasibility answer):
+        return dict(reproduced=False, detail="model has no value for %s; nothing to replay" % missing[:6])
     if label.startswith("exception:"):
         return dict(reproduced=False, detail="no exception on the real code")
     if label in fails:
